@@ -25,6 +25,17 @@ func indexOf(list []string, k string) int {
 	return len(list)
 }
 
+// valW resolves whose value an op / update writes (see Op.ValOf).
+func valW(valOf string, own int) int {
+	switch {
+	case valOf == "rt":
+		return 0
+	case len(valOf) == 2 && valOf[0] == 'p' && valOf[1] >= '0' && valOf[1] <= '9':
+		return int(valOf[1]-'0') + 1
+	}
+	return own
+}
+
 func strVal(w int, fam, key string) string { return whoName(w) + ":" + fam + ":" + key }
 
 func numVal(w int, field string) int64 { return int64(w*1000 + indexOf(allResFields(), field) + 1) }
@@ -319,6 +330,7 @@ func renderAdjust(s Script) *api.ContainerAdjustment {
 			if op.Act == "del" {
 				continue
 			}
+			w := valW(op.ValOf, w)
 			switch op.Fam {
 			case "ann":
 				a.AddAnnotation(op.Key, strVal(w, "ann", op.Key))
@@ -404,7 +416,7 @@ func renderUpdates(s Script, id ids) []*api.ContainerUpdate {
 		if !u.NoRes {
 			cu.Linux = &api.LinuxContainerUpdate{Resources: &api.LinuxResources{}}
 			for _, f := range u.Fields {
-				setResField(cu.Linux.Resources, f, w)
+				setResField(cu.Linux.Resources, f, valW(u.ValOf, w))
 			}
 		}
 		out = append(out, cu)
